@@ -14,31 +14,38 @@ import c19_caches  # noqa
 SOLID = ('tet', 'hex')
 SHELL = ('tri', 'quad')
 ALL = SOLID + SHELL
+MIXED = ('mixed',)
 
 # query -> (mesh kinds it is meaningful on, keyword variants)
 CATALOGUE = {
-    'calculate_element_volumes': (SOLID, [{}, {'mode': 'linear'}, {'mode': 'centroid'},
-                                          {'raise_negative_volume': False},
-                                          {'raise_negative_volume': False, 'return_abs_volume': True}]),
+    'calculate_element_volumes': (SOLID + MIXED, [{}, {'mode': 'linear'}, {'mode': 'centroid'},
+                                                  {'raise_negative_volume': False},
+                                                  {'raise_negative_volume': False, 'return_abs_volume': True},
+                                                  {'elements': {'$block': 'tet'}},
+                                                  {'elements': {'$block': 'hex'}, 'mode': 'linear'},
+                                                  {'elements': {'$block': 'tet'}, 'update': False}]),
     'calculate_element_areas': (SHELL, [{}, {'mode': 'linear'}, {'mode': 'centroid'},
-                                        {'return_abs_area': False}]),
-    'calculate_element_metrics': (ALL, [{}, {'raise_negative_metric': False},
-                                        {'raise_negative_metric': False, 'return_abs_metric': True}]),
-    'calculate_incidence_matrix': (ALL, [{}, {'order1_only': True}, {'order1_only': False}]),
-    'calculate_adjacency_matrix': (ALL, [{}, {'mode': 'nodal'}, {'mode': 'nodal', 'order1_only': False}]),
-    'calculate_adjacency_matrix_element': (ALL, [{}, {'order1_only': False}]),
-    'calculate_adjacency_matrix_node': (ALL, [{}, {'order1_only': True}, {'order1_only': False}]),
-    'calculate_laplacian_matrix': (ALL, [{}, {'mode': 'elemental'}]),
+                                        {'return_abs_area': False},
+                                        {'elements': {'$block': 'quad'}}, {'elements': {'$block': 'tri'}}]),
+    'calculate_element_metrics': (ALL + MIXED, [{}, {'raise_negative_metric': False},
+                                                {'raise_negative_metric': False, 'return_abs_metric': True},
+                                                {'elements': {'$block': 'tet'}},
+                                                {'elements': {'$block': 'hex'}, 'update': False}]),
+    'calculate_incidence_matrix': (ALL + MIXED, [{}, {'order1_only': True}, {'order1_only': False}]),
+    'calculate_adjacency_matrix': (ALL + MIXED, [{}, {'mode': 'nodal'}, {'mode': 'nodal', 'order1_only': False}]),
+    'calculate_adjacency_matrix_element': (ALL + MIXED, [{}, {'order1_only': False}]),
+    'calculate_adjacency_matrix_node': (ALL + MIXED, [{}, {'order1_only': True}, {'order1_only': False}]),
+    'calculate_laplacian_matrix': (ALL + MIXED, [{}, {'mode': 'elemental'}]),
     'calculate_edge_gradient_matrix': (ALL, [{}, {'mode': 'elemental'}]),
-    'calculate_n_hop_adj': (ALL, [{}, {'mode': 'nodal', 'n_hop': 2}, {'n_hop': 2, 'include_self_loop': False},
+    'calculate_n_hop_adj': (ALL + MIXED, [{}, {'mode': 'nodal', 'n_hop': 2}, {'n_hop': 2, 'include_self_loop': False},
                                   {'n_hop': 1, 'include_self_loop': False},
                                   {'mode': 'nodal', 'n_hop': 1, 'include_self_loop': False},
                                   {'mode': 'nodal', 'n_hop': 1, 'include_self_loop': True},
                                   {'mode': 'elemental', 'n_hop': 1, 'include_self_loop': False,
                                    'order1_only': False}]),
-    'calculate_e2v_matrix': (ALL, [{}, {'mode': 'nodal'}]),
-    'calculate_element_degree': (ALL, [{}]),
-    'filter_first_order_nodes': (ALL, [{}]),
+    'calculate_e2v_matrix': (ALL + MIXED, [{}, {'mode': 'nodal'}]),
+    'calculate_element_degree': (ALL + MIXED, [{}]),
+    'filter_first_order_nodes': (ALL + MIXED, [{}]),
     'extract_surface': (SOLID, [{}]),
     'extract_facets': (SOLID, [{}]),
     'calculate_surface_normals': (SOLID, [{}, {'mode': 'effective'}]),
@@ -49,11 +56,11 @@ CATALOGUE = {
     'calculate_angles': (SHELL, [{}]),
     'calculate_jacobians': (SHELL, [{}]),
     'calculate_frame_tensor_adjs': (ALL, [{}, {'mode': 'nodal'}]),
-    'convert_nodal2elemental': (ALL, [{'data': 'u', 'calc_average': True}, {'data': 'NODE', 'calc_average': True}]),
+    'convert_nodal2elemental': (ALL + MIXED, [{'data': 'u', 'calc_average': True}, {'data': 'NODE', 'calc_average': True}]),
     'convert_elemental2nodal': (ALL, [{'elemental_data': {'$elemental': 'w'}},
                                       {'elemental_data': {'$elemental': 'w'}, 'mode': 'effective'}]),
     'integrate_elements': (('tet',), [{'nodal_data': {'$nodal': 'u'}}]),
-    'calculate_element_centroids': (ALL, [{}]),
+    'calculate_element_centroids': (ALL + MIXED, [{}]),
     'calculate_spatial_gradient_adjacency_matrices': (SOLID, [{}, {'mode': 'nodal'}, {'n_hop': 2}]),
     'calculate_nodal_spatial_gradients': (SOLID, [{'nodal_data': {'$nodal': 'u'}}]),
     'calculate_elemental_spatial_gradients': (SOLID, [{'elemental_data': {'$elemental': 'w'}}]),
@@ -96,8 +103,25 @@ def _label(rng, n, mode):
 
 
 def gen_mesh(rng, kind, feat=None):
-    """raw mesh spec; feat: set of {'unref', 'inverted', 'jitter', 'timeseries'}"""
+    """raw mesh spec; feat: set of {'unref', 'inverted', 'jitter', 'timeseries', 'derived_names',
+    'partial_nodal'}; kind 'mixed' = a hex block and a tet block in one mesh"""
     feat = set(feat or [])
+    if kind == 'mixed':
+        a = gen_mesh(rng, 'hex', feat - {'derived_names', 'partial_nodal', 'timeseries'})
+        b = gen_mesh(rng, 'tet', [])
+        off_n = max(a['nodes']['ids']) + 7
+        off_e = max(a['elements']['hex']['ids']) + 3
+        bn = [i + off_n for i in b['nodes']['ids']]
+        m = {'kind': 'mixed', 'features': sorted(feat),
+             'nodes': {'ids': a['nodes']['ids'] + bn,
+                       'xyz': a['nodes']['xyz'] + [[p[0] + 40, p[1], p[2]] for p in b['nodes']['xyz']]},
+             'elements': {'hex': a['elements']['hex'],
+                          'tet': {'ids': [i + off_e for i in b['elements']['tet']['ids']],
+                                  'conn': [[v + off_n for v in c] for c in b['elements']['tet']['conn']]}},
+             'nodal': {'u': a['nodal']['u'] + b['nodal']['u']},
+             'elemental': {'w': a['elemental']['w'] + b['elemental']['w']}}
+        _decorate(rng, m, feat)
+        return m
     nx = rng.choice([1, 2, 2, 3])
     pts, cells = [], []
     if kind in SOLID:
@@ -187,7 +211,24 @@ def gen_mesh(rng, kind, feat=None):
         mesh['nodal']['t'] = [[[float(rng.randrange(9))] for _ in node_ids] for _ in range(2)]
         mesh['nodal']['t_0'] = [[float(100 + i)] for i, _ in enumerate(node_ids)]
     assert n_ref <= len(pts)
+    _decorate(rng, mesh, feat)
     return mesh
+
+
+def _decorate(rng, mesh, feat):
+    """user variables with awkward names / supports"""
+    node_ids = mesh['nodes']['ids']
+    n_el = sum(len(b['ids']) for b in mesh['elements'].values())
+    if 'derived_names' in feat:
+        # variables the USER stored under names the library also uses for derived data
+        mesh['nodal']['normal'] = [[7., 7., 7.] for _ in node_ids]
+        for nm in ('volume', 'area', 'metric', 'degree', 'normal'):
+            if rng.random() < 0.7 or nm == 'volume':
+                mesh['elemental'][nm] = [[42. + i] * (3 if nm == 'normal' else 1) for i in range(n_el)]
+    if 'partial_nodal' in feat:
+        used = sorted({v for b in mesh['elements'].values() for c in b['conn'] for v in c})
+        k = max(1, len(used) // 2)
+        mesh['nodal_partial'] = {'p': {'ids': used[:k], 'values': [[float(i)] for i in range(k)]}}
 
 
 # ------------------------------------------------------------------ histories
@@ -232,6 +273,8 @@ def gen_history(rng, cat, modifiers, tier):
                 args = {'kind': rng.choice(['roll', 'swap01', 'swap_first', 'same_array', 'same_array_rows'])}
             if e in ('rotation', 'translation'):
                 args = {'reset': rng.random() < 0.6}
+            if e == 'assign_nodes':
+                args = {'kind': rng.choice(['new', 'same_array'])}
             hist.append(e_op(o, e, args))
         elif r < 0.90:
             hist.append(e_op(o, rng.choice(RUNNABLE_WRITERS)))
@@ -270,6 +313,8 @@ def pair_histories(ctx, cat, cfgq, tier):
         kinds = list(cat[q1][0])
         if tier != 'thorough':
             kinds = [kinds[n % len(kinds)]]
+        if any(isinstance(v, dict) and '$block' in v for v in kw1.values()) and 'mixed' in cat[q1][0]:
+            kinds = sorted(set(kinds) | {'mixed'})
         for kind in kinds:
             sent = [q_op(0, q, kw) for q in sorted(memo) if q in cat and kind in cat[q][0] for kw in cat[q][1]]
             head = sent if tier == 'thorough' else []
@@ -339,8 +384,18 @@ def pins(cfgq):
     return lib.sha(json.dumps(memo))[:12], lib.sha(json.dumps(slots))[:12]
 
 
-def signature_of(hist, cfgq):
+def signature_of(hist, cfgq, res=None):
     sig = signature_of0(hist, cfgq)
+    if res is not None and 'ops' in res:
+        # an effect that raised midway is a different root cause than one that completed
+        raised = [r.get('raised') for h, r in zip(hist, res['ops']) if h['op'] == 'effect' and r.get('raised')]
+        if raised and 'effect' in sig:
+            sig['effect_raised'] = raised[-1]
+        # a query that changed protected data: say which
+        last = res['ops'][-1]
+        if hist[-1]['op'] in ('query', 'derive') and last.get('changed'):
+            sig = {'kind': 'query-overwrites-user-variable', 'query': hist[-1].get('q') or hist[-1].get('d'),
+                   'variables': sorted({c.split(':', 1)[1] for c in last['changed']})}
     memo_pin, slot_pin = pins(cfgq)
     if sig['kind'] in ('stale-lru', 'stale-derive'):
         sig['memo_inventory'] = memo_pin
@@ -385,6 +440,8 @@ def signature_of0(hist, cfgq):
         if len(ops) == 2 and ops[0]['op'] == 'effect' and ops[0]['o'] == last['o']:
             return {'kind': 'stale-' + qk, 'query': q, 'effect': ops[0]['e']}
         if len(ops) == 2 and ops[0]['op'] == 'query' and ops[0]['q'] == q and ops[0]['o'] == last['o']:
+            if 'elements' in ops[0]['kwargs'] and 'elements' not in last['kwargs']:
+                return {'kind': 'slot-partial', 'query': q}
             return {'kind': 'slot-key', 'query': q}
         if len(ops) == 3 and ops[0]['op'] == 'query' and ops[1]['op'] == 'derive':
             return {'kind': 'share', 'deriv': ops[1]['d'], 'query': q,
@@ -395,6 +452,8 @@ def signature_of0(hist, cfgq):
         if len(ops) == 2 and ops[0]['op'] == 'query' and ops[0]['o'] == last['o']:
             if qk == 'slot':
                 # the slot of q was filled by a nested call of another query
+                if 'elements' in ops[0]['kwargs'] and 'elements' not in last['kwargs']:
+                    return {'kind': 'slot-partial', 'query': q}
                 return {'kind': 'slot-key', 'query': q}
             return {'kind': 'query-after-query', 'query': q, 'first': ops[0]['q']}
     if last['op'] == 'query' and len(ops) == 4 and ops[0]['op'] == 'derive' and ops[1]['op'] == 'query' \
@@ -629,7 +688,8 @@ def witness_histories(ctx, fails, cat, cfgq, effects):
                 for kw in cat.get(a, (ALL, [{}]))[1][:2]:
                     args = {'kind': 'roll' if len(m['elements'][m['kind']]['ids']) > 1 else 'swap01'} \
                         if b == 'assign_connectivity' else ({'reset': True} if b in ('rotation', 'translation')
-                                                            else {})
+                                                            else ({'kind': 'same_array'} if b == 'assign_nodes'
+                                                                  else {}))
                     h = [{'op': 'new', 'o': 0, 'mesh': m}, q_op(0, a, kw), e_op(0, b, args), q_op(0, a, kw)]
                     out.append((f, h))
                     if pre_of.get(b) and (a in pre_of[b] or k == 'stale-slot'):
@@ -838,6 +898,20 @@ def main(ctx):
         batch.append(('witness', f, h))
     for h in pair_histories(ctx, cat, cfgq, ctx.tier):
         batch.append(('pairs', None, h))
+    # user variables stored under names the library also uses: a query must not overwrite them
+    for q in sorted(cat):
+        for kind in (cat[q][0] if ctx.tier == 'thorough' else cat[q][0][:2]):
+            batch.append(('uservar', None, [{'op': 'new', 'o': 0, 'mesh': gen_mesh(ctx.rng, kind, ['derived_names'])},
+                                            q_op(0, q, cat[q][1][0])]))
+    # a modifier that raises midway (a nodal variable that lacks some node ids) followed by queries
+    memo_q = [q for q, c in cfgq.items() if (c['lru'] is not None or c['slot'] is not None) and q in cat]
+    for q in sorted(memo_q):
+        for kind in cat[q][0][:2]:
+            if kind == 'mixed':
+                continue
+            m = gen_mesh(ctx.rng, kind, ['unref', 'partial_nodal'])
+            batch.append(('raising-modifier', None, [{'op': 'new', 'o': 0, 'mesh': m}, q_op(0, q, cat[q][1][0]),
+                                                     e_op(0, 'remove_useless_nodes'), q_op(0, q, cat[q][1][0])]))
     n_rand = 150 if ctx.tier == 'quick' else 1500
     for _ in range(n_rand):
         batch.append(('random', None, gen_history(ctx.rng, cat, modifiers, ctx.tier)))
@@ -878,7 +952,7 @@ def main(ctx):
             if tag == 'witness':
                 payload.setdefault('reproduced', []).append(kind)
             if len([h for h in hist[:i + 1] if h['op'] != 'new']) <= 2 or tag == 'witness':
-                sig = signature_of(hist[:i + 1], cfgq)
+                sig = signature_of(hist[:i + 1], cfgq, {'ops': res['ops'][:i + 1]} if 'ops' in res else None)
                 if sig['kind'] != 'other':
                     key = json.dumps(sig, sort_keys=True)
                     found.setdefault(key, (sig, hist[:i + 1], detail, kind))
@@ -899,7 +973,7 @@ def main(ctx):
             for c, r, n in zip(cands, cres, owner):
                 kind = unexplained[n][2]
                 if still_fails(r, kind):
-                    sig = signature_of(c, cfgq)
+                    sig = signature_of(c, cfgq, r)
                     if sig['kind'] != 'other' and (n not in best or len(c) < len(best[n][1])):
                         best[n] = (sig, c, problems(c, r)[-1][2], kind)
             for n, (sig, c, det, kind) in best.items():
